@@ -96,6 +96,8 @@ Definition emit (code : str) (ot : option token) (E : list em) : outcome (list e
   | Some t => Ok (E ++ [(code, t_line t, t_col t)])
   | None => Crash AttributeError
   end.
+(* `tok_a or tok_b` (a Token object is always truthy) *)
+Definition or_tok (a b : option token) : option token := match a with Some t => Some t | None => b end.
 (* an attribute read on the result of peek_token *)
 Definition need_tok {A} (ot : option token) (k : token -> outcome A) : outcome A :=
   match ot with Some t => k t | None => Crash AttributeError end.
